@@ -239,7 +239,11 @@ example : (runC Dynar.new [.push 1, .unshift 2, .insertAt 1 3, .set 5 9, .remove
 /-!
 Part 2: xbt_dict refines an association map, **for every hash function `h`**.  The abstract map is the relation
 `Bound d k v` ("k is bound to v"); `DInv` is the representation invariant (table size a power of two, every element
-sits in the cell its hash selects under the current mask, keys distinct along a chain).
+sits in the cell its hash selects under the current mask, keys distinct along a chain).  `CInv` is the counter
+invariant (`count` = number of stored elements, `fill` = number of non-empty cells); it is kept by set / remove /
+rehash from every state (`dict_counters_*`), and with `DInv` + the refinement relation it makes `count` the size of
+the specification map (`dict_count_size_of_inv`).  `dict_refines_assoc` (∀ h, ∀ histories) is the FULL statement:
+get, cursor, `xbt_dict_length`/`is_empty` and `fill`; `dict_refines_assoc_partial` is its former, weaker form.
 -/
 
 /-- a fresh dict satisfies the invariant and binds nothing -/
@@ -567,44 +571,214 @@ theorem dstep_refines (h : Key → Nat) (d : Dict) (m : Key → Option Int) (hin
         · intro hb; cases hb
       · simp only [hk, if_false]; exact hrel k' v'
 
-/-- **Every sequence of `set` / `remove`, every hash function**: starting from a fresh dict the invariant holds all
-along, and afterwards `get` answers exactly what the specification map holds (and the cursor enumerates exactly that
-map, `dict_foreach_refines`).  `_partial`: `xbt_dict_length` (the `count` field) and the `fill` counter are not
-covered by a theorem — they are compared by the correspondence at every dump. -/
-theorem dict_refines_assoc_partial (h : Key → Nat) (ops : List DOp) :
-    DInv h (ops.foldl (dstep h) Dict.new) ∧
-    ∀ k, dget h (ops.foldl (dstep h) Dict.new) k = ops.foldl mstep (fun _ => none) k := by
-  have gen : ∀ (ops : List DOp) (d : Dict) (m : Key → Option Int), DInv h d → Rel d m →
-      DInv h (ops.foldl (dstep h) d) ∧ Rel (ops.foldl (dstep h) d) (ops.foldl mstep m) := by
+/-! ### the counters `count` (`xbt_dict_length`, `xbt_dict_size`, `xbt_dict_is_empty`) and `fill`
+
+`CInv d` (DictLemmas.lean): `d.count = (entries d).length` (the number of stored elements = what the cursor yields)
+and `d.fill = nonEmptyCells d` (the number of `i ≤ table_size` with `table[i] != nullptr`).  It is kept by `set`,
+`remove` and `rehash` **for every hash function and from every state** — it does not even need `DInv`.  The
+decrements of `remove` and the `fill + fillUp - fillDown` of `rehash` are truncated (`Nat`) subtractions in the model;
+the theorems show that nothing is ever truncated. -/
+
+/-- a fresh dict: `count = 0` elements, `fill = 0` non-empty cells -/
+theorem dict_counters_new : CInv Dict.new := by decide
+
+/-- **rehash** (∀ states): `count` is unchanged and is the number of elements of the doubled table; the new
+`fill = fill + fillUp - fillDown` is the number of non-empty cells of the doubled table (cells `j < oldsize` hold
+what stayed, cells `oldsize ≤ j < 2·oldsize` what moved; `fillDown ≤ fill`, so the subtraction is exact) -/
+theorem dict_counters_rehash (d : Dict) (hc : CInv d) :
+    CInv (rehash d) ∧ (rehash d).count = d.count ∧ (entries (rehash d)).length = (entries d).length := by
+  have h := rehash_cinv d hc
+  exact ⟨h, rfl, by rw [← h.1, ← hc.1]; rfl⟩
+
+/-- **set** (∀ h, ∀ states; replace / new cell with or without rehash / chain append): the counters stay exact, and
+`xbt_dict_length` grows by one exactly when the key was absent -/
+theorem dict_counters_set (h : Key → Nat) (d : Dict) (hc : CInv d) (k : Key) (v : Int) :
+    CInv (dset h d k v) ∧
+    (dset h d k v).count = (if (dget h d k).isSome then d.count else d.count + 1) :=
+  ⟨dset_cinv h d hc k v, dset_count h d k v⟩
+
+/-- **remove** (∀ h, ∀ states): the counters stay exact; the `count--` and `fill--` of the code never wrap: the
+old `count` is the new one plus 1, and the old `fill` is the new one plus 1 exactly when the cell became empty -/
+theorem dict_counters_remove (h : Key → Nat) (d : Dict) (hc : CInv d) (k : Key) (d' : Dict)
+    (hr : dremove h d k = some d') :
+    CInv d' ∧ d'.count + 1 = d.count ∧
+    d'.fill + (if (d'.cell (h k &&& d.tableSize)).isEmpty then 1 else 0) = d.fill :=
+  dremove_cinv h d hc k d' hr
+
+/-- one step of a history keeps the counter invariant -/
+theorem dict_counters_step (h : Key → Nat) (d : Dict) (hc : CInv d) (op : DOp) : CInv (dstep h d op) := by
+  cases op with
+  | set k v => exact dset_cinv h d hc k v
+  | remove k =>
+    simp only [dstep]
+    cases hr : dremove h d k with
+    | some d' => exact (dremove_cinv h d hc k d' hr).1
+    | none => exact hc
+
+/-- **`count` is the size of the abstract map** (∀ h, ∀ states satisfying the invariants, ∀ maps `m` the dict
+refines): `count` = number of stored elements = length of the duplicate-free key list the cursor yields, whose members
+are exactly the keys bound by `m`; hence `count` is the length of EVERY duplicate-free enumeration of the domain of
+`m`, and `xbt_dict_is_empty` (`count == 0`) holds exactly when `m` binds nothing -/
+theorem dict_count_size_of_inv (h : Key → Nat) (d : Dict) (m : Key → Option Int) (hinv : DInv h d) (hc : CInv d)
+    (hrel : Rel d m) :
+    d.count = (entries d).length ∧
+    d.count = ((entries d).map (·.key)).length ∧
+    ((entries d).map (·.key)).Nodup ∧
+    (∀ k, k ∈ (entries d).map (·.key) ↔ (m k).isSome = true) ∧
+    (∀ ks : List Key, ks.Nodup → (∀ k, k ∈ ks ↔ (m k).isSome = true) → ks.length = d.count) ∧
+    (d.count = 0 ↔ ∀ k, m k = none) := by
+  have hnd := entries_keys_nodup h d hinv
+  have hmem : ∀ k, k ∈ (entries d).map (·.key) ↔ (m k).isSome = true := by
+    intro k
+    rw [mem_entries_keys h d hinv k, Option.isSome_iff_exists]
+    constructor
+    · rintro ⟨v, hb⟩; exact ⟨v, (hrel k v).mp hb⟩
+    · rintro ⟨v, hb⟩; exact ⟨v, (hrel k v).mpr hb⟩
+  have hlen : d.count = ((entries d).map (·.key)).length := by rw [List.length_map]; exact hc.1
+  refine ⟨hc.1, hlen, hnd, hmem, ?_, ?_⟩
+  · intro ks hks hk
+    rw [hlen]
+    exact length_eq_of_nodup_of_mem_iff _ _ hks hnd (fun k => by rw [hk k, hmem k])
+  · constructor
+    · intro h0 k
+      have hnil : (entries d).map (·.key) = [] := List.eq_nil_of_length_eq_zero (by rw [← hlen]; exact h0)
+      cases hm : m k with
+      | none => rfl
+      | some v =>
+        have := (hmem k).mpr (by rw [hm]; rfl)
+        rw [hnil] at this; cases this
+    · intro hall
+      rw [hlen]
+      cases hl : (entries d).map (·.key) with
+      | nil => rfl
+      | cons k t =>
+        have := (hmem k).mp (by rw [hl]; exact List.mem_cons_self)
+        rw [hall k] at this; cases this
+
+/-- the dict and the specification map after a history -/
+abbrev runD (h : Key → Nat) (ops : List DOp) : Dict := ops.foldl (dstep h) Dict.new
+abbrev runM (ops : List DOp) : Key → Option Int := ops.foldl mstep (fun _ => none)
+
+/-- **Every sequence of `set` / `remove`, every hash function**: the three invariants hold all along — the
+representation invariant, the counter invariant, and the refinement relation with the specification map -/
+theorem dict_run_invariants (h : Key → Nat) (ops : List DOp) :
+    DInv h (runD h ops) ∧ CInv (runD h ops) ∧ Rel (runD h ops) (runM ops) := by
+  have gen : ∀ (ops : List DOp) (d : Dict) (m : Key → Option Int), DInv h d → CInv d → Rel d m →
+      DInv h (ops.foldl (dstep h) d) ∧ CInv (ops.foldl (dstep h) d) ∧
+        Rel (ops.foldl (dstep h) d) (ops.foldl mstep m) := by
     intro ops
     induction ops with
-    | nil => intro d m hi hr; exact ⟨hi, hr⟩
+    | nil => intro d m hi hc hr; exact ⟨hi, hc, hr⟩
     | cons op ops ih =>
-      intro d m hi hr
+      intro d m hi hc hr
       obtain ⟨h1, h2⟩ := dstep_refines h d m hi hr op
-      exact ih _ _ h1 h2
+      exact ih _ _ h1 (dict_counters_step h d hc op) h2
   obtain ⟨hnew, hnob⟩ := dict_new_refines h
   have hrel0 : Rel Dict.new (fun _ => none) := by
     intro k v
     constructor
     · intro hb; exact absurd hb (hnob k v)
     · intro hb; cases hb
-  obtain ⟨hi, hr⟩ := gen ops Dict.new _ hnew hrel0
-  refine ⟨hi, ?_⟩
+  exact gen ops Dict.new _ hnew dict_counters_new hrel0
+
+/-- **`xbt_dict_length` after every history, every hash function**: `count` is the number of stored elements, which
+is the number of keys bound by the specification map (see `dict_count_size_of_inv` for the clauses) -/
+theorem dict_count_is_size (h : Key → Nat) (ops : List DOp) :
+    (runD h ops).count = (entries (runD h ops)).length ∧
+    (runD h ops).count = ((entries (runD h ops)).map (·.key)).length ∧
+    ((entries (runD h ops)).map (·.key)).Nodup ∧
+    (∀ k, k ∈ (entries (runD h ops)).map (·.key) ↔ (runM ops k).isSome = true) ∧
+    (∀ ks : List Key, ks.Nodup → (∀ k, k ∈ ks ↔ (runM ops k).isSome = true) → ks.length = (runD h ops).count) ∧
+    ((runD h ops).count = 0 ↔ ∀ k, runM ops k = none) := by
+  obtain ⟨hi, hc, hr⟩ := dict_run_invariants h ops
+  exact dict_count_size_of_inv h _ _ hi hc hr
+
+/-- **`fill` after every history, every hash function** (including the histories that rehash, any number of
+times): `fill` is the number of non-empty cells of the current table, hence at most the number of cells -/
+theorem dict_fill_is_nonempty_cells (h : Key → Nat) (ops : List DOp) :
+    (runD h ops).fill =
+      ((List.range ((runD h ops).tableSize + 1)).filter (fun i => !((runD h ops).cell i).isEmpty)).length ∧
+    (runD h ops).fill ≤ (runD h ops).tableSize + 1 := by
+  obtain ⟨_, hc, _⟩ := dict_run_invariants h ops
+  refine ⟨hc.2, ?_⟩
+  rw [hc.2, nonEmptyCells_eq]
+  exact cnt_le _ _
+
+/-- **Every sequence of `set` / `remove`, every hash function** (FULL statement): starting from a fresh dict the
+invariant holds all along; afterwards `get` answers exactly what the specification map holds (and the cursor
+enumerates exactly that map, `dict_foreach_refines`); `xbt_dict_length` (`count`) is the size of the specification
+map: the number of stored elements, whose keys are pairwise distinct and are exactly the bound keys, so that `count`
+is the length of every duplicate-free enumeration of the bound keys, and `count = 0` iff nothing is bound; and `fill`
+is the number of non-empty cells of the (possibly several times doubled) table. -/
+theorem dict_refines_assoc (h : Key → Nat) (ops : List DOp) :
+    DInv h (runD h ops) ∧
+    (∀ k, dget h (runD h ops) k = runM ops k) ∧
+    (runD h ops).count = (entries (runD h ops)).length ∧
+    ((entries (runD h ops)).map (·.key)).Nodup ∧
+    (∀ k, k ∈ (entries (runD h ops)).map (·.key) ↔ (runM ops k).isSome = true) ∧
+    (∀ ks : List Key, ks.Nodup → (∀ k, k ∈ ks ↔ (runM ops k).isSome = true) → ks.length = (runD h ops).count) ∧
+    ((runD h ops).count = 0 ↔ ∀ k, runM ops k = none) ∧
+    (runD h ops).fill =
+      ((List.range ((runD h ops).tableSize + 1)).filter (fun i => !((runD h ops).cell i).isEmpty)).length := by
+  obtain ⟨hi, hc, hr⟩ := dict_run_invariants h ops
+  obtain ⟨c1, _, c3, c4, c5, c6⟩ := dict_count_size_of_inv h _ _ hi hc hr
+  refine ⟨hi, ?_, c1, c3, c4, c5, c6, hc.2⟩
   intro k
-  cases hm : ops.foldl mstep (fun _ => none) k with
+  cases hm : runM ops k with
   | some v => exact (dict_get_refines h _ hi k v).mpr ((hr k v).mpr hm)
   | none =>
-    cases hg : dget h (ops.foldl (dstep h) Dict.new) k with
+    cases hg : dget h (runD h ops) k with
     | none => rfl
     | some v =>
       have := (hr k v).mp ((dict_get_refines h _ hi k v).mp hg)
       rw [hm] at this; cases this
+
+/-- the former statement (without the counters), kept under its old name: a corollary of `dict_refines_assoc` -/
+theorem dict_refines_assoc_partial (h : Key → Nat) (ops : List DOp) :
+    DInv h (ops.foldl (dstep h) Dict.new) ∧
+    ∀ k, dget h (ops.foldl (dstep h) Dict.new) k = ops.foldl mstep (fun _ => none) k :=
+  ⟨(dict_refines_assoc h ops).1, (dict_refines_assoc h ops).2.1⟩
 
 /-! ### non-vacuity (djb2: "ab" and "bA" have the same hash code, hence the same cell) -/
 example : djb2 "ab" = djb2 "bA" := by decide
 example : dget djb2 ([DOp.set "ab" 1, .set "bA" 2, .set "ab" 3, .remove "bA"].foldl (dstep djb2) Dict.new) "ab" = some 3 := by
   decide
 example : dremove djb2 Dict.new "zz" = none := by decide
+
+/-! ### non-vacuity of the counter theorems -/
+
+/-- a history with a chain of length 2 ("ab", "bA": same djb2 hash), a replace, a removal that empties a cell ("c")
+and a refused removal: 2 elements left, in 1 cell -/
+def hist1 : List DOp := [.set "ab" 1, .set "bA" 2, .set "c" 5, .set "ab" 3, .remove "c", .remove "zz"]
+example : (runD djb2 (hist1.take 3)).count = 3 ∧ (runD djb2 (hist1.take 3)).fill = 2 ∧
+    (entries (runD djb2 (hist1.take 3))).length = 3 ∧ nonEmptyCells (runD djb2 (hist1.take 3)) = 2 := by decide
+example : (runD djb2 hist1).count = 2 ∧ (runD djb2 hist1).fill = 1 ∧
+    (entries (runD djb2 hist1)).map (·.key) = ["ab", "bA"] ∧ nonEmptyCells (runD djb2 hist1) = 1 ∧
+    ((runD djb2 hist1).cell (djb2 "ab" &&& 127)).length = 2 := by decide
+/-- the duplicate-free enumeration `["bA", "ab"]` of the bound keys has length `count` -/
+example : (runM hist1 "ab", runM hist1 "bA", runM hist1 "c") = (some 3, some 2, none) := by decide
+/-- emptiness: a history that removes everything it inserted -/
+example : (runD djb2 [.set "ab" 1, .set "bA" 2, .remove "ab", .remove "bA"]).count = 0 ∧
+    (runD djb2 [.set "ab" 1, .set "bA" 2, .remove "ab", .remove "bA"]).fill = 0 := by decide
+
+/-- a hand-made 2-cell table (mask 1) for the hash function `hSmall`: cell 0 holds a chain of two, cell 1 is empty -/
+def hSmall (k : Key) : Nat := if k = "a" then 0 else if k = "b" then 2 else 3
+def dSmall : Dict := ⟨1, fun i => if i = 0 then [⟨"a", 0, 1⟩, ⟨"b", 2, 2⟩] else [], 2, 1⟩
+example : CInv dSmall := by decide
+/-- `set "c"` fills the second cell: `fill * 100 / 2 = 100 > 80`, so the updated dict is rehashed to 4 cells:
+"a" stays in cell 0, "b" moves to cell 2, "c" moves from cell 1 (emptied: fillDown = 1) to cell 3 (fillUp = 2) -/
+example : (dset hSmall dSmall "c" 7).tableSize = 3 ∧ (dset hSmall dSmall "c" 7).count = 3 ∧
+    (dset hSmall dSmall "c" 7).fill = 3 ∧ nonEmptyCells (dset hSmall dSmall "c" 7) = 3 ∧
+    (entries (dset hSmall dSmall "c" 7)).map (·.key) = ["a", "b", "c"] ∧
+    ((dset hSmall dSmall "c" 7).cell 1).isEmpty = true := by decide
+/-- `rehash` directly, on a table where a cell splits in two (no cell emptied) -/
+example : CInv (rehash dSmall) ∧ (rehash dSmall).fill = 2 ∧ (rehash dSmall).count = 2 ∧
+    (rehash dSmall).tableSize = 3 := by decide
+/-- `remove` that empties a cell / that does not -/
+example : (dremove hSmall (dset hSmall dSmall "c" 7) "c").map (fun d => (d.count, d.fill)) = some (2, 2) := by decide
+example : (dremove hSmall dSmall "a").map (fun d => (d.count, d.fill)) = some (1, 1) := by decide
+/-- the hypotheses of `dict_count_size_of_inv` are satisfiable (also by every reachable state: `dict_run_invariants`) -/
+example : DInv djb2 Dict.new ∧ CInv Dict.new ∧ Rel Dict.new (fun _ => none) :=
+  dict_run_invariants djb2 []
 
 end SgVerif.C50
